@@ -286,7 +286,7 @@ mut('C11', 'handlers_get_fresh_output_map', S, """			n.data.Step.OutputVariables
 mut('C11', 'restored_output_value_keeps_name_prefix', G, """				err := os.Setenv(k, v[len(key.(string))+1:])""", """				err := os.Setenv(k, v)""")
 mut('C12', 'setup_no_longer_rearms_teardown', N, """	n.done = false
 
-	// Set the log file path""", """	// Set the log file path""")
+	// Nor has the new attempt finished""", """	// Nor has the new attempt finished""")
 mut('C12', 'teardown_skips_stdout_writer', N, """	for _, w := range []*bufio.Writer{n.logWriter, n.stdoutWriter} {""", """	for _, w := range []*bufio.Writer{n.logWriter} {""")
 mut('C12', 'teardown_flushes_only_when_log_file_set', N, """		if w != nil {
 			if err := w.Flush(); err != nil {""", """		if w != nil && n.stderrFile != nil {
@@ -878,6 +878,20 @@ mut('C09', 'spawned_goroutine_skips_restart_entries', 'internal/scheduler/schedu
 				return
 			}
 			if err := e.Invoke(); err != nil {""")
+
+# ---- a new attempt of a step has not finished (C05, fix 447a967)
+mut('C05', 'retried_attempt_keeps_the_old_finishing_time', N, """	n.data.State.FinishedAt = time.Time{}
+
+""", "")
+# ---- what "the precondition is met" means (C02, C04)
+PU = 'internal/patternutil/patternutil.go'
+mut('C02', 'empty_value_never_meets_an_empty_expectation', PU, """		for _, p := range literalPatterns {
+			if p == "" {
+				return true
+			}
+		}
+		// Check regex patterns against empty string""", """		// Check regex patterns against empty string""")
+mut('C04', 'condition_value_compared_as_substring', 'internal/dag/condition.go', """	if !patternutil.MatchPattern(actual, []string{c.Expected}, patternutil.WithExactMatch()) {""", """	if !patternutil.MatchPattern(actual, []string{c.Expected}) {""")
 
 def main():
     import glob
